@@ -174,7 +174,7 @@ func scnFaults(ctx *check.JobCtx) {
 	gwA := w.Acct("gw0")
 	var funded []*actors.Account
 	funded = append(funded, fish...)
-	funded = append(funded, plainNode, nonNode, gwA, w.Acct("pay-owner"))
+	funded = append(funded, plainNode, nonNode, gwA, w.Acct("pay-owner"), w.Acct("pay-owner2"))
 	var spA []*actors.Account
 	for i := 0; i < 4; i++ {
 		spA = append(spA, w.Acct(fmt.Sprintf("sp%d", i)))
@@ -201,6 +201,10 @@ func scnFaults(ctx *check.JobCtx) {
 	}
 	w.CreateNode(plainNode)
 	w.ResetNode(plainNode, world.StatusAll, nil, "")
+	// a registered node that declares the fishing service bit for itself without being designated
+	fishBit := w.Acct("pay-owner2")
+	w.CreateNode(fishBit)
+	w.ResetNode(fishBit, world.StatusAll|32, nil, "")
 	w.Providers = sps
 	owner := w.NewKeyOwner("owner")
 	w.EndBlock()
@@ -234,7 +238,7 @@ func scnFaults(ctx *check.JobCtx) {
 	reporters := []struct {
 		a    *actors.Account
 		name string
-	}{{fish[0], "fishman"}, {fish[1], "fishman2"}, {fish[2], "fishman3"}, {plainNode, "ordinary-node"}, {nonNode, "non-node"}, {sps[0].Acct, "provider"}}
+	}{{fish[0], "fishman"}, {fish[1], "fishman2"}, {fish[2], "fishman3"}, {plainNode, "ordinary-node"}, {nonNode, "non-node"}, {sps[0].Acct, "provider"}, {fishBit, "node-with-fishing-bit"}}
 	ops := int(ctx.ArgInt("ops", 120))
 	for i := 0; i < ops && !w.Halted(); i++ {
 		if len(targets) == 0 {
